@@ -2,7 +2,7 @@
     [vm_compute] on a witness for the refutations/examples) and followed by [Print Assumptions].
     All are parametric in the two oracles (what the real parser / printer return). *)
 From V Require Import Base.Util C20.Model C19.Model C19.Spec C19.Proofs C19.Proofs2 C19.Proofs3
-  C19.Proofs4 C19.Proofs5 C19.Corr.
+  C19.Proofs4 C19.Proofs5 C19.Ghost C19.GhostProofs C19.Corr.
 From Coq Require Import Sorted.
 
 (** 1. task ids: strictly increasing over any history, never 0 — hence never reused *)
@@ -88,6 +88,25 @@ Theorem C19_emit_equals_fresh : forall parse_o emit_o h st t x,
 Proof. exact emit_equals_fresh. Qed.
 Print Assumptions C19_emit_equals_fresh.
 
+(** 7. ghost ownership of the leaked source buffers ([C19/Ghost.v], capacity = length as
+       [read_str_ptr] produces): over any history no buffer is freed twice or with a layout other
+       than the allocated one, no document is read after its buffer was freed, and every buffer
+       ever allocated is freed or listed by a live task *)
+Theorem C19_ghost_ownership : forall parse_o emit_o h,
+  let gh := grun 0 parse_o emit_o init_state ghost_init h in
+  gh_faults gh = []
+  /\ forall b, (b < gh_next gh)%N ->
+       is_freed b gh = true \/ exists t gt, g_find t (gh_tasks gh) = Some gt /\ In b (ids gt).
+Proof. exact ghost_safe. Qed.
+Print Assumptions C19_ghost_ownership.
+
+(** ... which rests on that capacity: one spare byte and the first free_task is a double free *)
+Theorem C19_ghost_needs_exact_capacity :
+  gh_faults (grun 1 (fun _ => POk []) (fun _ _ => EOk []) init_state ghost_init
+                  [Initiate (s "/p/a.graphql") (s "query A { a }"); Free 1]) = [BadFree 0].
+Proof. exact ghost_unsafe_with_slack. Qed.
+Print Assumptions C19_ghost_needs_exact_capacity.
+
 (** * Refutations: behaviour of the current code that violates the property.  The witnesses are
       cases exactly as the correspondence run records them on the real loader (oracle values
       included); the model agrees with the implementation on them and the property fails. *)
@@ -154,6 +173,15 @@ Example ex_stale_read_crosses_tasks :
       [Initiate (s "/p/a.graphql") (s "A"); Initiate (s "/p/a.graphql") (s "F"); Required 1;
        Load 2 (s "/p/b.graphql") (s "F"); ReadResult]
   = [RId 1; RId 2; RBool true; RBool true; RFiles [s "/p/b.graphql"]].
+Proof. vm_compute. reflexivity. Qed.
+
+(** the ghost theorem is not vacuous: buffers are allocated, listed, and freed *)
+Example ex_ghost_nontrivial :
+  let gh := grun 0 ex_parse ex_emit init_state ghost_init
+              [Initiate (s "/p/a.graphql") (s "A"); Load 1 (s "/p/b.graphql") (s "F"); Load 1 (s "/p/b.graphql") (s "bad");
+               Initiate (s "/p/a.graphql") (s "bad"); Initiate (s "/p/c.graphql") (s "F"); Emit 1; Free 1; Free 1] in
+  (gh_next gh, gh_freed gh, map (fun kt => (fst kt, ids (snd kt))) (gh_tasks gh), gh_faults gh)
+  = (5%N, [2; 1; 0; 3]%N, [(2%N, [4%N])], []).
 Proof. vm_compute. reflexivity. Qed.
 
 (** the guard of the [get_result] clause: before anything was stored, a read aborts *)
